@@ -1,6 +1,6 @@
-(* ExtractDayConcrete.v — stand-alone extraction of the concrete day (ExtrOcamlBasic only). *)
-From AC Require Import Num Params Clock Day DayConcrete.
+(* ExtractDayConcrete.v — stand-alone extraction of the concrete day and of the concrete whole run (ExtrOcamlBasic only). *)
+From AC Require Import Num Params Clock Day DayConcrete RunConcrete.
 From Coq Require Import ExtrOcamlBasic.
 Definition keep_nat : nat -> nat := S.
 Extraction Language OCaml.
-Extraction "ocaml/model_dayc.ml" keep_nat storage procs_concrete day_step_opt start_season'.
+Extraction "ocaml/model_dayc.ml" keep_nat storage procs_concrete day_step_opt start_season' run_till_c run_steps_c init_c.
